@@ -260,7 +260,10 @@ func randomOps(r *rand.Rand, n int) []opSpec {
 		case k < 11:
 			ops = append(ops, opSpec{Op: "Scan", Full: r.Intn(2) == 0, Anc: ancs[r.Intn(len(ancs))], Cancel: r.Intn(9) == 0})
 		case k < 12:
-			ops = append(ops, opSpec{Op: "Scan", Anc: "prev"}, opSpec{Op: "Stage"})
+			ops = append(ops, opSpec{Op: "Scan", Anc: "prev"}, opSpec{Op: "Stage", Bad: r.Intn(3) == 0})
+			if r.Intn(2) == 0 {
+				ops = append(ops, opSpec{Op: "Trans"})
+			}
 		case k < 13:
 			// a second staging finds part of what it needs already in the store
 			ops = append(ops, opSpec{Op: "Scan", Anc: "prev"}, opSpec{Op: "Stage"}, opSpec{Op: "Edit", Kind: "src"},
@@ -269,7 +272,7 @@ func randomOps(r *rand.Rand, n int) []opSpec {
 			// staged content that is stale by the time it is applied
 			ops = append(ops, opSpec{Op: "Scan", Anc: "src"}, opSpec{Op: "Stage"}, opSpec{Op: "Edit", Kind: "src"}, opSpec{Op: "Trans"})
 		case k < 16:
-			ops = append(ops, opSpec{Op: "Supply"})
+			ops = append(ops, opSpec{Op: "Supply", Bad: r.Intn(3) == 0})
 		case k < 19:
 			if r.Intn(3) > 0 {
 				ops = append(ops, opSpec{Op: "Scan", Anc: ancs[r.Intn(len(ancs))]})
@@ -363,7 +366,7 @@ func run(c *vlib.Ctx) error {
 	}
 	if maxBeh > 0 && len(beh) > maxBeh {
 		// a seeded sample of the exported edges (all of them in the thorough tier)
-		rand.New(rand.NewSource(c.Seed*31 + 7)).Shuffle(len(pick), func(i, j int) { pick[i], pick[j] = pick[j], pick[i] })
+		rand.New(rand.NewSource(c.Seed*31+7)).Shuffle(len(pick), func(i, j int) { pick[i], pick[j] = pick[j], pick[i] })
 		pick = pick[:maxBeh]
 	}
 	nb := 0
